@@ -7,6 +7,7 @@ import (
 	"io"
 
 	"github.com/hujm2023/go-sms-protocol/packet"
+	"github.com/hujm2023/go-sms-protocol/verifhook"
 )
 
 type TLV struct {
@@ -61,6 +62,7 @@ func ReadTLVs(r *packet.Reader) (TLVs, error) {
 
 	tlvs := make(map[uint16]TLV)
 	for {
+		verifhook.Tick("smpp.ReadTLVs")
 		if r.Remaining() == 0 {
 			return tlvs, nil
 		}
@@ -110,6 +112,7 @@ func ReadTLVs1(r *packet.Reader) TLVs {
 
 	tlvs := make(map[uint16]TLV)
 	for {
+		verifhook.Tick("smpp.ReadTLVs1")
 		if r.Remaining() == 0 {
 			return tlvs
 		}
